@@ -326,7 +326,11 @@ PAIRS = ["json_json", "cbor_json", "msgpack_json", "postcard_json", "rkyv_json",
          "posturl_json", "deleteurl_json", "patchurl_json", "puturl_json", "patchjson_json", "putjson_json", "json_cbor",
          "json_msgpack", "json_postcard", "json_rkyv", "json_serdelite", "json_patchjson", "json_putjson", "cbor_cbor",
          "msgpack_msgpack", "postcard_postcard", "rkyv_rkyv", "serdelite_serdelite", "geturl_cbor", "posturl_rkyv",
-         "rkyv_postcard", "patchcbor_putcbor", "putcbor_msgpack"]
+         "rkyv_postcard", "patchcbor_putcbor", "putcbor_msgpack",
+         # (coverage audit) the Patch/Put wrappers of every encoding, as input and as output
+         "json_patchcbor", "patchmsgpack_putmsgpack", "putmsgpack_patchmsgpack", "patchpostcard_putpostcard",
+         "putpostcard_patchpostcard", "patchrkyv_putrkyv", "putrkyv_patchrkyv", "patchserdelite_putserdelite",
+         "putserdelite_patchserdelite"]
 URL_INPUT = {i for i, p in enumerate(PAIRS) if p.split("_")[0].endswith("url")}
 
 
@@ -399,7 +403,8 @@ MP_CTS = [b"multipart/form-data; boundary=B", b"multipart/form-data", b"multipar
 
 
 OPT_FNS = ["json", "cbor", "msgpack", "postcard", "rkyv", "serdelite", "geturl", "posturl", "deleteurl", "patchurl", "puturl",
-           "patchjson", "putjson", "patchcbor", "putcbor", "patchmsgpack", "putmsgpack", "patchpostcard", "putpostcard"]
+           "patchjson", "putjson", "patchcbor", "putcbor", "patchmsgpack", "putmsgpack", "patchpostcard", "putpostcard",
+           "patchrkyv", "putrkyv", "patchserdelite", "putserdelite"]
 OPT_URL = {i for i, p in enumerate(OPT_FNS) if p.endswith("url")}
 
 
@@ -430,8 +435,8 @@ def gen_typed(rng):
         return dict(case=[18, rng.randrange(len(OPT_FNS))] + gen_opt_args(rng) + [gen_frame(rng)], kind="option-args",
                     compare=False)
     if r < 0.58:
-        where = rng.choice([0, 0, 1, 1, 2])
-        arg = gen_edit(rng) if where < 2 else rng.choice(STATUSES + [rng.randint(100, 999)])
+        where = rng.choice([0, 0, 0, 1, 1, 1, 2, 2, 3, 4])
+        arg = gen_edit(rng) if where < 2 else rng.choice(STATUSES + [rng.randint(100, 999)]) if where == 2 else 0
         return dict(case=[11, rng.randrange(len(PAIRS)), gen_val(rng), gen_plan(rng), where, arg, gen_frame(rng)],
                     kind="typed-corrupted", compare=False)
     if r < 0.63:
@@ -515,7 +520,8 @@ def gen_stream(rng):
     return dict(case=[15, chunks, rc], kind="text-stream-out", compare=False)
 
 
-APP_FNS = ["json", "cbor", "msgpack", "postcard", "postcard(json in)", "msgpack(url in)"]
+APP_FNS = ["json", "cbor", "msgpack", "postcard", "postcard(json in)", "msgpack(url in)", "rkyv", "serdelite",
+           "rkyv(put cbor in, put rkyv out)"]
 
 
 def gen_app_err(rng):
@@ -537,8 +543,12 @@ def gen_call(rng):
         return [10, pid, gen_val(rng), gen_plan(rng), gen_frame(rng)]
     if r < 0.65:
         return [18, rng.randrange(len(OPT_FNS))] + gen_opt_args(rng) + [gen_frame(rng)]
-    if r < 0.8:
+    if r < 0.75:
         return gen_app_err(rng)
+    if r < 0.9:
+        it = gen_audit(rng)
+        if it["case"][0] in (23, 27, 30, 35):
+            return it["case"]
     return [9, C.norm(glue_input(rng)), rng.choice([0, 1, 2])]
 
 
@@ -548,20 +558,870 @@ def gen_history(rng):
     calls = []
     for _ in range(rng.choice([2, 3, 4, 6])):
         if rng.random() < 0.4:
-            calls.append([20, rng.choice([0, 0, 1, 1, 2, 3]), rng.choice([0, 1, 100, 5000])])
+            calls.append([20, rng.choice([0, 0, 1, 1, 2, 3, 4]), rng.choice([0, 1, 100, 5000])])
         calls.append(gen_call(rng))
     return dict(case=[19] + calls, kind="call-history", compare=False)
+
+
+# ------------------------------------------------------------------ coverage audit: ops 22..35
+WS_FNS = ["glue(str)", "json", "cbor", "msgpack", "postcard", "rkyv", "serdelite", "json->rkyv", "rkyv->json",
+          "cbor->postcard", "first(json)", "apperr(postcard->cbor; Cbor/MsgPack errors)", "poison(json)", "no-upgrade"]
+ERR_TYPES = ["ServerFnError<NoCustomError>", "ServerFnError<Code>", "AppErrJson", "AppErrCbor", "AppErrMsgPack",
+             "AppErrPostcard", "AppErrRkyv", "AppErrSerdeLite"]
+ERR_BINARY = {3, 4, 5, 6}
+FMT_ENCS = ["JsonEncoding", "SerdeLiteEncoding", "ServerFnErrorEncoding", "CborEncoding", "MsgPackEncoding",
+            "PostcardEncoding", "RkyvEncoding"]
+SIZES = [0, 1, 15, 16, 17, 23, 24, 25, 31, 32, 33, 127, 128, 255, 256, 257, 4095, 4096, 4097, 8191, 8192, 8193,
+         65535, 65536, 65537]
+ZOO_FNS = ["json", "cbor", "msgpack", "postcard", "patchjson->putcbor", "putmsgpack->patchpostcard",
+           "patchcbor->putjson", "putpostcard->patchmsgpack"]
+BIG_FNS = ["json", "cbor", "msgpack", "postcard", "rkyv", "serdelite", "posturl", "geturl", "deleteurl", "patchurl",
+           "puturl", "patchrkyv->putrkyv", "patchserdelite->putserdelite"]
+BIG_URL = {6, 7, 8, 9, 10}
+OPT_NAMES = ["m_default", "m_only_input", "m_only_output", "m_named", "m_endpoint", "m_legacy_cbor", "m_legacy_getjson",
+             "m_legacy_getcbor", "m_protocol", "m_custom", "m_single", "m_single_off", "m_derive", "m_attrs",
+             "m_attrs_url", "m_alias", "m_docjson"]
+OPT_PATHS = {3: "/rpc/named_ep", 4: "/api/x/y", 5: "/leg/cbor_ep", 7: "/leg/gc"}
+OPT_PREFIX = {6: "/leg/"}
+AX_PATHS = sorted(["GET /api/ax_geturl", "GET /api/ax_mw", "POST /api/ax_echo_text", "POST /api/ax_emit_bytes",
+                   "POST /api/ax_glue", "POST /api/ax_json", "POST /api/ax_rkyv", "POST /api/ax_upload"])
+REL_BASES = ["/relative", "relative", "", "//h.t/p", "?x=1", "/p?__err=QQ"]
+
+
+def gen_std_err(rng, cust, ch=safe_char):
+    """(kind payload) of a ServerFnError<NoCustomError|Code>"""
+    kind = rng.randint(0, 9)
+    if kind == 0:
+        payload = [rng.choice([0, 1, 9, 10, 99, 100, 255, rng.randint(0, 255)])] if cust == 1 else []
+    else:
+        payload = C.norm(text(rng, 8, ch))
+    return kind, payload
+
+
+def gen_eplan(rng, variants=(1, 1, 2, 2, 3, 3, 4)):
+    variant = rng.choice(variants)
+    what = gen_str(rng, 8) if rng.random() < 0.5 else gen_str(rng, 4) + "x" * rng.choice([120, 127, 128, 129, 200, 300])
+    code = rng.choice([0, 1, 127, 128, 255, 256, 65535, 2 ** 31, 2 ** 32 - 1, rng.getrandbits(32)])
+    many = list(rand_bytes(rng, 20)) if rng.random() < 0.7 else [rng.randint(128, 255)] * rng.choice([1, 127, 128, 200])
+    return [variant, u64(rng.choice([0, 127, 128, 2 ** 32, 2 ** 64 - 1, rng.getrandbits(64)])), C.norm(what), code, many,
+            rng.randint(1, 10)]
+
+
+def ref_eplan_err(p):
+    v, idv, what, code, many, kind = p
+    return {1: [1, idv, what], 2: [2, code], 3: [3, many]}.get(v, [4, [kind, what]])
+
+
+def gen_ws_inner(rng, fn):
+    r = rng.random()
+    if r < 0.25:
+        label = "!" + str(rng.randint(1, 9)) + gen_str(rng, 6)
+    elif r < 0.35 and fn == 11:
+        label = "?" + gen_str(rng, 6)
+    else:
+        label = gen_str(rng, 8)
+    x = rng.choice([0, 1, -1, 2 ** 31 - 1, -2 ** 31, rng.randint(-2 ** 31, 2 ** 31 - 1)])
+    opt = [] if rng.random() < 0.4 else [C.norm(gen_str(rng, 5))]
+    return [x, C.norm(label), opt]
+
+
+def gen_ws(rng):
+    fn = rng.choice([0, 0, 0, 0, 1, 2, 3, 4, 5, 5, 6, 7, 8, 9, 10, 10, 11, 11, 12, 13])
+    if fn == 13:
+        return dict(case=[22, 13], kind="ws-no-upgrade", compare=False)
+    n = rng.choice([0, 1, 2, 3, 3, 5, 8])
+    items = []
+    safe = True
+    for k in range(n):
+        if fn == 0:
+            if rng.random() < 0.75:
+                s = glue_input(rng)
+                safe = safe and debug_safe(s.encode())
+                items.append([0, C.norm(s)])
+            else:
+                kind, payload = gen_std_err(rng, 1)
+                items.append([1, kind, payload])
+        elif fn == 12:
+            items.append([0, C.norm(rng.choice(["", "p", "pq", "a", gen_str(rng, 4)])), rng.choice([0, 0, 1])])
+        elif fn == 11:
+            items.append([0, gen_ws_inner(rng, fn)] if rng.random() < 0.7 else [1, gen_eplan(rng)])
+        else:
+            if rng.random() < 0.75:
+                it = gen_ws_inner(rng, fn)
+                if fn == 10 and k == 0 and rng.random() < 0.35:
+                    it[1] = C.norm("E" + str(rng.randint(1, 9)) + gen_str(rng, 5))
+                items.append([0, it])
+            else:
+                kind, payload = gen_std_err(rng, 0, any_char if rng.random() < 0.3 else safe_char)
+                items.append([1, kind, payload])
+    sched = [rng.randint(0, 4) for _ in range(rng.choice([1, 1, 2, 3, 5]))]
+    take = 0 if (n == 0 or rng.random() < 0.8) else rng.randint(1, n)
+    faults = []
+    if n and rng.random() < 0.3:
+        seen = set()
+        for _ in range(rng.choice([1, 1, 2])):
+            d, i = rng.choice([0, 1]), rng.randrange(n + 1)
+            if (d, i) in seen:
+                continue
+            seen.add((d, i))
+            if rng.random() < 0.5:
+                fr = [0, list(rng.choice([b"", b"\xff", b"{", b"null", b"\x00", b"E4x", bytes(rand_bytes(rng, 12))]))]
+            else:
+                fr = [1, wire_like(rng)]
+            safe = safe and debug_safe(fr[1])
+            faults.append([d, i, fr])
+    return dict(case=[22, fn, items, sched, take, faults, gen_frame(rng)], kind="websocket-" + ("glue" if fn == 0 else "typed"),
+                compare=(fn == 0 and safe))
+
+
+def ref_ws_plan(inner):
+    b = bytes(inner[1])
+    if len(b) >= 2 and b[0:1] == b"!" and 49 <= b[1] <= 57:
+        return [1, [b[1] - 48, list(b[2:])]]
+    return [0, [((inner[0] + 1 + 2 ** 31) % 2 ** 32) - 2 ** 31, list(b + b"~"), inner[2]]]
+
+
+def ref_ws_direct(case):
+    fn, items, take = case[1], case[2], case[4]
+    out = []
+    if fn == 10 and items and items[0][0] == 0:
+        b = bytes(items[0][1][1])
+        if len(b) >= 2 and b[0:1] == b"E" and 49 <= b[1] <= 57:
+            return [1, [b[1] - 48, list(b[2:])]]
+    for it in items:
+        if fn == 0:
+            if it[0] == 0:
+                w = ref_body(bytes(it[1]).decode())
+                out.append([0, w[1]] if w[0] == "ok" else [1, w[1]])
+            else:
+                out.append([1, ref_err(1, it[1], it[2])])
+        elif fn == 12:
+            pad = bytes(it[1])
+            out.append([0, [list(pad + b"~"), 1 if (it[2] or pad.startswith(b"p")) else 0]])
+        elif fn == 11:
+            if it[0] == 1:
+                out.append([1, ref_eplan_err(it[1])])
+            else:
+                b = bytes(it[1][1])
+                if len(b) >= 2 and b[0:1] == b"!" and 49 <= b[1] <= 57:
+                    out.append([1, [4, [b[1] - 48, list(b[2:])]]])
+                elif b[0:1] == b"?":
+                    out.append([1, [1, u64(it[1][0] % 2 ** 32), list(b[1:])]])
+                else:
+                    out.append(ref_ws_plan(it[1]))
+        else:
+            out.append(ref_ws_plan(it[1]) if it[0] == 0 else [1, ref_err(0, it[1], it[2])])
+    if take:
+        out = out[:take]
+    return [0, out]
+
+
+def oracle_ws(case, impl):
+    fn = case[1]
+    if fn == 13:
+        status, body = impl
+        return None if status == 500 and bytes(body).startswith(b"Response|") else \
+            "a plain request to a websocket function on a platform without websockets was not answered with an error response"
+    remote, direct, handshake = impl
+    if remote and remote[0] == 2:
+        return "the remote websocket call never completed: " + C.show_bytes(remote[1])
+    want = ref_ws_direct(case)
+    if direct != want:
+        return "harness: direct websocket call differs from the reference"
+    if direct[0] == 1:
+        # the body failed before it returned a stream: what a websocket client sees of a failed
+        # handshake is transport business; it must be a value
+        return None if remote and remote[0] in (0, 1) else "unexpected observation"
+    faults = case[5]
+    if remote[0] != 0:
+        return "the body returned a stream, the remote call returned an error"
+    if fn == 10 and faults:
+        return None
+    r, d = remote[1], direct[1]
+    if len(r) != len(d):
+        return "the remote stream has %d items, the direct one %d" % (len(r), len(d))
+    touched = {i for (dr, i, fr) in faults}
+    errframe = {i for (dr, i, fr) in faults if fr[0] == 1}
+    for i, (x, y) in enumerate(zip(r, d)):
+        if not (isinstance(x, list) and len(x) == 2 and x[0] in (0, 1)):
+            return "item %d of the remote stream is not an item" % i
+        if i in touched:
+            if i in errframe and x[0] != 1 and any(dr == 1 and k == i for (dr, k, fr) in faults):
+                return "an error frame sent to the client did not arrive as an error item"
+            continue
+        if fn == 12 and (case[2][i][2] or bytes(case[2][i][1]).startswith(b"p")):
+            # an item JSON cannot carry: must arrive as an error item, not vanish
+            if x[0] != 1:
+                return "an item that cannot be encoded arrived as a value"
+            continue
+        if x != y:
+            return "item %d of the remote stream differs from the direct call's (%s)" % (i, WS_FNS[fn])
+    return None
+
+
+def gen_err_string(rng):
+    ety = rng.randrange(len(ERR_TYPES))
+    r = rng.random()
+    if r < 0.45:
+        if ety < 2:
+            kind, payload = gen_std_err(rng, ety, any_char if rng.random() < 0.3 else safe_char)
+            via = 1 if (ety == 0 and rng.random() < 0.3) else 0
+            return dict(case=[23, ety, kind, payload, via], kind="error-string-roundtrip")
+        return dict(case=[23, ety, gen_eplan(rng), 0, 0], kind="error-string-roundtrip-custom", compare=False)
+    if r < 0.7:
+        rr = rng.random()
+        if rr < 0.4:
+            s = b64_mutant(rng, STD64, False)
+        elif rr < 0.7:
+            try:
+                s = bytes(wire_like(rng)).decode("utf-8")
+            except UnicodeDecodeError:
+                s = text(rng, 8)
+        else:
+            s = rng.choice(["", "{}", "null", "{\"Code\":7}", "{\"Code\":", "[1,2", "Args|x", "|", "AAAA", "AA", "A"]) + \
+                rng.choice(["", "", text(rng, 3)])
+        return dict(case=[24, ety, C.norm(s)], kind="error-string-malformed", compare=(ety < 2 and debug_safe(s.encode())))
+    if r < 0.85:
+        enc = rng.randrange(len(FMT_ENCS))
+        if rng.random() < 0.5:
+            data = list(text(rng, 10, any_char).encode()) if enc < 3 else list(rand_bytes(rng))
+            return dict(case=[25, enc, 0, data], kind="format-type-roundtrip")
+        s = text(rng, 8, any_char) if rng.random() < 0.4 else b64_mutant(rng, STD64, False)
+        return dict(case=[25, enc, 1, C.norm(s)], kind="format-type-decode")
+    # the URL form for every error type
+    if ety < 2:
+        a, b = gen_std_err(rng, ety, any_char if rng.random() < 0.3 else safe_char)
+    else:
+        a, b = gen_eplan(rng), 0
+    if rng.random() < 0.15:
+        pre, q, f = C.norm(rng.choice(REL_BASES)), [], []
+    else:
+        pre, q, f = gen_base(rng)
+    conv = 1 if (ety == 0 and a != 0 and rng.random() < 0.3) else 0
+    return dict(case=[26, ety, a, b, C.norm(gen_path(rng)), pre, q, f, conv], kind="url-error-any-type", compare=False)
+
+
+def oracle_err_string(case, impl):
+    op, ety = case[0], case[1]
+    if op == 23:
+        want = ref_err(ety, case[2], case[3]) if ety < 2 else ref_eplan_err(case[2])
+        s, back = impl
+        if ety < 2 and bytes(s) != ref_wire(ety, case[2], case[3]):
+            return "the string form of a ServerFnError is not its wire form"
+        if ety in ERR_BINARY and b64_canonical(bytes(s).decode(), STD64, False) is None:
+            return "the string form of a binary-encoded error is not unpadded standard base64"
+        return None if back == want else "from_str(to_string(e)) != e: the error did not survive its string form (%s)" % ERR_TYPES[ety]
+    if op == 24:
+        s = bytes(case[2])
+        if ety < 2:
+            return check_de(s, impl)
+        if ety in ERR_BINARY and b64_canonical(s.decode(), STD64, False) is None:
+            return None if (impl[0] == 4 and impl[1][0] == 6) else "a string that is not base64 was not reported as a Deserialization error"
+        return None if impl and impl[0] in (1, 2, 3, 4) else "unexpected observation"
+    if op == 25:
+        import base64 as B
+        enc, mode, data = case[1], case[2], bytes(case[3])
+        if mode == 0:
+            w = data if enc < 3 else B.b64encode(data).rstrip(b"=")
+            if bytes(impl[0]) != w:
+                return "into_encoded_string is not the text / unpadded standard base64 of the bytes"
+            return None if impl[1] == [0, list(data)] else "from_encoded_string(into_encoded_string(b)) != b"
+        if enc < 3:
+            return None if impl == [0, list(data)] else "a text format did not hand the string's bytes back"
+        want = b64_canonical(data.decode(), STD64, False)
+        if want is None:
+            return None if impl[0] == 1 else "non-canonical base64 accepted"
+        return None if impl == [0, list(want)] else "canonical base64 not decoded to its bytes"
+    if op == 26:
+        _, ety, a, b, path, pre, q, f, conv = case
+        want = ref_err(ety, a, b) if ety < 2 else ref_eplan_err(a)
+        if conv == 1:
+            return None if impl == [-2, ref_err(1, a, b)] else "ServerFnError::from(ServerFnUrlError) lost the error"
+        if impl[-1] != [path, want]:
+            return "ServerFnUrlError::path()/error() do not return what new() was given"
+        if bytes(pre).decode() not in PRE_OK:
+            return None if impl[0] == -1 else "to_url accepted a base that is not an absolute URL"
+        if impl[0] == -1:
+            return "to_url rejected an absolute base URL: " + C.show_bytes(impl[1])
+        if impl[1] != [path]:
+            return "__path read back from the URL differs from the server function's path"
+        if impl[2] != [want]:
+            return "error read back from the URL differs: it did not survive the URL-embedded form (%s)" % ERR_TYPES[ety]
+        return None if bytes(impl[0]).startswith(bytes(pre)) else "to_url changed the base URL"
+    return None
+
+
+# ---- op 27: a value of every serde representation class
+def gen_shape(rng):
+    k = rng.randrange(4)
+    if k == 0:
+        return [0]
+    if k == 1:
+        return [1, u64(rng.choice([0, -1, 2 ** 63 - 1, -2 ** 63, rng.randint(-2 ** 63, 2 ** 63 - 1)]) % 2 ** 64)]
+    if k == 2:
+        return [2, rng.choice([0, 127, 128, 255]), C.norm(gen_str(rng, 5))]
+    return [3, [] if rng.random() < 0.4 else [rng.choice([0, 255, rng.randint(0, 255)])], list(rand_bytes(rng, 6))]
+
+
+def gen_zoo(rng):
+    keys = sorted({gen_str(rng, 4) for _ in range(rng.choice([0, 1, 2, 3]))}, key=lambda k: k.encode())
+    cp = rng.choice([0, 0x41, 0x7F, 0x80, 0xE9, 0x7FF, 0x800, 0x20AC, 0xD7FF, 0xE000, 0xFFFF, 0x10000, 0x1F600, 0x10FFFF])
+    fbits = rng.choice([0, 0x80000000, 0x3F800000, 0x3FC00000, 0x00000001, 0x7F7FFFFF, 0xFF7FFFFF, 0x3DCCCCCD, 0x00800000])
+    u128 = lambda: [u64(rng.choice([0, 1, 2 ** 64 - 1, rng.getrandbits(64)])), u64(rng.choice([0, 1, 2 ** 64 - 1, rng.getrandbits(64)]))]
+    return [gen_shape(rng), [gen_shape(rng) for _ in range(rng.choice([0, 1, 2, 4]))],
+            [rng.choice([0, -1, 2 ** 31 - 1, -2 ** 31]), C.norm(gen_str(rng, 5))],
+            [[C.norm(k), rng.choice([0, 1, 2 ** 32 - 1, rng.getrandbits(32)])] for k in keys], cp, u128(), u128(), fbits,
+            list(rand_bytes(rng, 8)), [0, rng.randint(0, 255)] if rng.random() < 0.5 else [1, C.norm(gen_str(rng, 5))],
+            [rng.choice([0, 1, 255, 256, 65535]) for _ in range(3)]]
+
+
+def ref_zoo(z, fail):
+    if fail:
+        sh = z[0]
+        name = ["Unit", "New", "Tup", "Rec"][sh[0]]
+        return None                      # message = Debug of the shape: only remote == direct is judged
+    z = list(z)
+    z[1] = list(reversed(z[1]))
+    z[2] = [((z[2][0] + 1 + 2 ** 31) % 2 ** 32) - 2 ** 31, z[2][1]]
+    z[8] = list(reversed(z[8]))
+    return [0, z]
+
+
+# ---- op 28: sizes
+def gen_big(rng, fn):
+    url = fn in BIG_URL
+    cap = 300 if fn in (7, 8) else 4097 if url else 70000
+    big_dim = rng.randrange(5)
+    def size(i, lo=0):
+        if i == big_dim:
+            return max(lo, min(cap, rng.choice(SIZES)))
+        return max(lo, rng.choice([0, 1, 2, 3]))
+    n = size(0)
+    if n and rng.random() < 0.5:
+        ch = rng.choice(MB)
+        j = len(ch.encode())
+        segs = [seg(max(0, n - j), "a"), seg(1, ch)] if n >= j else [seg(n, "a")]
+    else:
+        segs = [seg(n, "a")]
+    lo = 1 if url else 0
+    nv = size(1, lo)
+    if url:
+        nv = min(nv, 40 if fn in (7, 8) else 300)
+    ni = min(size(2, lo), 40 if fn in (7, 8) else 300 if url else 4097)
+    nb = size(3, lo)
+    if url:
+        nb = min(nb, 40 if fn in (7, 8) else 300)
+    ns = min(size(4, lo), 40 if fn in (7, 8) else 300 if url else 4097)
+    return [[x for x in segs if x[0] > 0],
+            [nv, rng.choice([0, 1, 127, 128, 2 ** 32 - 1]), rng.choice([0, 1, 7, 2 ** 31])],
+            [ni, rng.choice([0, 7, 8, 9, 31, 32, 255, 256]) if not url else rng.choice([1, 7, 8, 9])],
+            [nb, rng.randint(0, 255)],
+            [ns, rng.choice([1, 7, 8, 9, 31, 32, 255, 256]) if not url else rng.choice([1, 8, 9])]]
+
+
+def ref_big(big):
+    segs, (nv, first, step), (ni, ll), (nb, b0), (ns, each) = big
+    s = chunk_bytes(segs) + b"~"
+    nums = [(first + i * step) % 2 ** 32 for i in range(nv)][::-1]
+    hb = b"".join(x.to_bytes(4, "little") for x in nums)
+    hi = bytearray()
+    for i in reversed(range(ni)):
+        hi += (i).to_bytes(4, "little") + b"l" * ll + b"\xff" + (str(i).encode() if i % 2 else b"") + b"\xfe"
+    by = bytes(((b0 + i) + 1) % 256 for i in range(nb))
+    hs = b"".join(b"s" * (each + i % 2) + b"\xff" for i in range(ns))
+    return [0, [[len(s), u64(fnv(s))], [nv, u64(fnv(hb))], [ni, u64(fnv(bytes(hi)))], [nb, u64(fnv(by))], [ns, u64(fnv(hs))]]]
+
+
+def gen_audit(rng):
+    r = rng.random()
+    if r < 0.22:
+        return gen_ws(rng)
+    if r < 0.42:
+        return gen_err_string(rng)
+    if r < 0.50:
+        return dict(case=[27, rng.randrange(len(ZOO_FNS)), gen_zoo(rng), rng.choice([0, 0, 0, 1]), gen_frame(rng)],
+                    kind="value-classes", compare=False)
+    if r < 0.56:
+        fn = rng.randrange(len(BIG_FNS))
+        return dict(case=[28, fn, gen_big(rng, fn), gen_frame(rng)], kind="size-boundaries", compare=False)
+    if r < 0.62:
+        s = rng.choice(["deny", "x deny y", "den", "DENY", "!deny", "!" + gen_str(rng, 4), gen_str(rng, 8), gen_str(rng, 4) + "deny"])
+        return dict(case=[29, rng.choice([0, 1]), C.norm(s), rng.choice([0, 1, 2 ** 32 - 1, rng.getrandbits(32)]), gen_frame(rng)],
+                    kind="middleware", compare=False)
+    if r < 0.72:
+        s = rng.choice(["!" + gen_str(rng, 4), gen_str(rng, 8), gen_str(rng, 8), ""])
+        return dict(case=[30, rng.randrange(len(OPT_NAMES)), C.norm(s), rng.choice([0, 1, 255, 256, 2 ** 32 - 1, rng.getrandbits(32)]),
+                          gen_frame(rng)], kind="macro-options", compare=False)
+    if r < 0.88:
+        return gen_axum(rng)
+    if r < 0.92:
+        items = []
+        for _ in range(rng.choice([0, 1, 2, 3, 5])):
+            if rng.random() < 0.3:
+                items.append([rng.randint(1, 9), [seg(1, gen_str(rng, 8))]])
+            else:
+                items.append([0, gen_byte_chunk(rng)])
+        return dict(case=[33, items, [rng.choice(RECHUNK_SIZES), rng.choice(RECHUNK_SIZES)]], kind="byte-stream-error-items",
+                    compare=False)
+    if r < 0.96:
+        chunks = []
+        for k in range(rng.choice([0, 1, 2, 3, 5])):
+            rr = rng.random()
+            if rr < 0.2:
+                chunks.append([seg(1, "!" + str(rng.randint(1, 9)) + gen_str(rng, 8))])
+            elif rr < 0.35:
+                chunks.append([seg(1, "?" + gen_str(rng, 8))])
+            elif rr < 0.4 and k == 0:
+                chunks.append([seg(1, "E!" + gen_str(rng, 3))])
+            else:
+                chunks.append(gen_text_chunk(rng))
+        return dict(case=[34, chunks, [rng.choice(RECHUNK_SIZES), rng.choice(RECHUNK_SIZES)]], kind="text-stream-custom-error",
+                    compare=False)
+    if rng.random() < 0.6:
+        s = rng.choice(["0", "-0", "+7", "9223372036854775807", "-9223372036854775808", "9223372036854775808", "", "+", "-",
+                        " 1", "1 ", "12a", gen_str(rng, 5), str(rng.randint(-10 ** 20, 10 ** 20))])
+        return dict(case=[35, 0, rng.choice([0, 0, 1, 2]), C.norm(s)], kind="question-mark-errors", compare=False)
+    return dict(case=[35, 1, rng.choice([0, 1, 2]), rng.randint(0, 255)], kind="question-mark-errors", compare=False)
+
+
+def gen_val_url_ok(rng):
+    """a Val the URL codecs can carry (outside the known class F-C13-e: no empty vectors, no Some(""))"""
+    while True:
+        v = gen_val(rng)
+        inners = [v[6]] + v[7] + v[9]
+        if v[7] and v[8] and all(i[2] != [[]] for i in inners):
+            return v
+
+
+def gen_axum(rng):
+    w = rng.choice([0, 0, 1, 1, 2, 3, 3, 4, 5, 6, 7, 8, 8, 8])
+    rc = [rng.choice(RECHUNK_SIZES), rng.choice(RECHUNK_SIZES)]
+    if w <= 2:
+        v = gen_val_url_ok(rng) if w == 2 else gen_val(rng)
+        return dict(case=[31, w, v, gen_plan(rng), gen_frame(rng), rc], kind="axum-remote-vs-direct", compare=False)
+    if w == 3:
+        s = rng.choice(["deny", "a deny", "den", "!x", gen_str(rng, 6)])
+        return dict(case=[31, 3, C.norm(s), rng.getrandbits(32)], kind="axum-tower-middleware", compare=False)
+    if w == 4:
+        return dict(case=[31, 4, [gen_text_chunk(rng) for _ in range(rng.choice([0, 1, 2, 3]))], rc], kind="axum-text-stream",
+                    compare=False)
+    if w == 5:
+        return dict(case=[31, 5, [gen_byte_chunk(rng) for _ in range(rng.choice([0, 1, 2, 3]))], rc], kind="axum-byte-stream",
+                    compare=False)
+    if w == 6:
+        ct = rng.choice(MP_CTS)
+        body = MP_OK_BODY
+        rr = rng.random()
+        if rr < 0.3:
+            body = body[:rng.randint(0, len(body))]
+        elif rr < 0.5:
+            i = rng.randrange(len(body))
+            body = body[:i] + bytes([body[i] ^ rng.choice([1, 32, 128])]) + body[i + 1:]
+        return dict(case=[31, 6, [] if rng.random() < 0.1 else [list(ct)], list(body), rc], kind="axum-multipart", compare=False)
+    if w == 7:
+        # (a route of the *other* backend is not asked for: the inventory registry is one static shared by all
+        # request/response types, so the axum handler would call a loopback function's handler with its own request type)
+        return dict(case=[31, 7, C.norm(rng.choice(["nope", "ax_json", "", "ax_"]))], kind="axum-registry", compare=False)
+    # the glue function on the axum backend: compared with the model
+    data = list(glue_input(rng).encode()) if rng.random() < 0.75 else wire_like(rng)
+    acc = rng.choice(ACCEPTS)
+    acc = [] if acc is None else [C.norm(acc)]
+    rr = rng.random()
+    if rr < 0.25:
+        ref = []
+    elif rr < 0.8:
+        pre, q, f = gen_base(rng)
+        ref = [1, pre, q, f]
+    else:
+        raw = rng.choice(RAW_REFERERS).encode()
+        if rng.random() < 0.15:
+            raw = raw + rng.choice([b"\xff", b"\xc3", b"\xe2\x82"])
+        ref = [2, list(raw)]
+    return dict(case=[32, data, acc, ref, rc], kind="axum-glue-server", compare=debug_safe(data))
+
+
+def oracle_audit(case, impl):
+    op = case[0]
+    if op == 22:
+        return oracle_ws(case, impl)
+    if op in (23, 24, 25, 26):
+        return oracle_err_string(case, impl)
+    if op == 27:
+        remote, direct = impl
+        want = ref_zoo(case[2], case[3])
+        if want is not None and direct != want:
+            return "harness: direct call differs from the reference body"
+        if want is None and direct[0] != 1:
+            return "harness: direct call should have failed"
+        return None if remote == direct else "remote call result differs from the direct call (value classes, %s)" % ZOO_FNS[case[1] % len(ZOO_FNS)]
+    if op == 28:
+        remote, direct = impl
+        if direct != ref_big(case[2]):
+            return "harness: direct call differs from the reference body"
+        return None if remote == direct else "remote call result differs from the direct call (sizes, %s)" % BIG_FNS[case[1] % len(BIG_FNS)]
+    if op == 29:
+        remote, direct, log = impl
+        s, n = bytes(case[2]), case[3]
+        want = [1, [4, list(s)]] if s.startswith(b"!") else [0, list(s + b"/" + str(n).encode())]
+        if case[1] == 1 and s.startswith(b"!"):
+            want = [1, [1, u64(n), list(s)]]
+        if direct != want:
+            return "harness: direct call differs from the reference body"
+        if b"deny" in s:
+            e = remote[1] if remote[0] == 1 else None
+            if case[1] == 1 and e is not None:
+                e = e[1] if e[0] == 4 else None
+            if not (e and e[0] == 5 and bytes(e[1]).startswith(b"denied at byte ") and bytes(e[1]).endswith(b" | by the gate")):
+                return "the middleware's refusal did not reach the client as its MiddlewareError"
+            return None
+        return None if remote == direct else "remote call (through the middleware layers) differs from the direct call"
+    if op == 30:
+        import re
+        remote, direct, path, url = impl
+        fn, s, n = case[1], bytes(case[2]), case[3]
+        if fn in (10, 11):
+            want = [0, list(s), len(s)]
+        elif fn == 13:
+            want = [0, n, list(s), n % 256, list(s), 0, list(s), list(reversed(s))]
+        elif fn == 14:
+            want = [0, n, list(s), list(s)]
+        elif fn == 15 and s.startswith(b"!"):
+            want = [1, [1, u64(n), list(s)]]
+        elif fn == 16 and s.startswith(b"!"):
+            want = [1, [8, list(s)]]
+        else:
+            want = [0, list(s), (n + 1) % 2 ** 32]
+        if direct != want:
+            return "harness: direct call differs from the reference body"
+        p = bytes(path).decode()
+        if path != url:
+            return "ServerFn::url() differs from PATH"
+        if fn in OPT_PATHS:
+            if p != OPT_PATHS[fn]:
+                return "PATH is not prefix + endpoint"
+        elif not re.fullmatch(re.escape(OPT_PREFIX.get(fn, "/api/") + OPT_NAMES[fn]) + r"\d+", p):
+            return "PATH is not prefix/name+hash"
+        return None if remote == direct else "remote call result differs from the direct call (%s)" % OPT_NAMES[fn]
+    if op == 31:
+        w = case[1]
+        if w <= 2:
+            remote, direct = impl
+            if direct != ref_typed_body(case[2], case[3]):
+                return "harness: direct call differs from the reference body"
+            return None if remote == direct else "remote call through the axum backend differs from the direct call"
+        if w == 3:
+            remote, direct = impl
+            s, n = bytes(case[2]), case[3]
+            want = [1, [1, u64(n), list(s)]] if s.startswith(b"!") else [0, list(s + b"/" + str(n).encode())]
+            if direct != want:
+                return "harness: direct call differs from the reference body"
+            if b"deny" in s:
+                ok = remote[0] == 1 and remote[1][0] == 4 and remote[1][1][0] == 5 and bytes(remote[1][1][1]).endswith(b"denied | by tower")
+                return None if ok else "the tower layer's error did not reach the client as a MiddlewareError"
+            return None if remote == direct else "remote call through the tower layer differs from the direct call"
+        if w in (4, 5):
+            remote, direct = impl
+            chunks = [chunk_bytes(ch) for ch in case[2]]
+            want = [0, ref_runs([((ch.upper() if w == 4 else ch), None) for ch in chunks])]
+            if direct != want:
+                return "harness: direct stream call differs from the reference"
+            return None if remote == direct else "remote stream through the axum backend differs from the direct call (re-chunk %r)" % (case[3],)
+        if w == 6:
+            return oracle_typed([12, case[2], case[3]], impl)
+        if w == 7:
+            paths, status = impl
+            if sorted(bytes(p).decode() for p in paths) != AX_PATHS:
+                return "server_fn_paths() does not list each axum function once"
+            return None if status == 400 else "an unknown route was not answered with 400"
+        return None
+    if op == 32:
+        res, loop = impl
+        msg = oracle_glue([8, case[1], case[2], case[3], 3], res)
+        if msg:
+            return msg
+        try:
+            t = bytes(case[1]).decode("utf-8")
+        except UnicodeDecodeError:
+            return None if loop == [] else "unexpected loopback observation"
+        want = ref_body(t)
+        want = [0, want[1]] if want[0] == "ok" else [1, want[1]]
+        if loop[1] != want:
+            return "harness: direct call differs from the reference body"
+        return None if loop[0] == loop[1] else "remote call through the axum backend differs from the direct call"
+    if op == 33:
+        remote, direct = impl
+        items = []
+        for kind, ch in case[1]:
+            b = chunk_bytes(ch)
+            items.append((b, None) if kind == 0 else (None, [kind, list(b)]))
+        if direct != [0, ref_runs(items)]:
+            return "harness: direct stream call differs from the reference"
+        return None if remote == direct else "remote byte stream (with error items) differs from the direct call"
+    if op == 34:
+        remote, direct = impl
+        chunks = [chunk_bytes(ch) for ch in case[1]]
+        if chunks and chunks[0].startswith(b"E!"):
+            want = [1, [2, len(chunks)]]
+        else:
+            items = []
+            for b in chunks:
+                if len(b) >= 2 and b[0:1] == b"!" and 49 <= b[1] <= 57:
+                    items.append((None, [4, [b[1] - 48, list(b[2:])]]))
+                elif b[0:1] == b"?":
+                    items.append((None, [1, u64(len(b)), list(b[1:])]))
+                else:
+                    items.append((b.upper(), None))
+            want = [0, ref_runs(items)]
+        if direct != want:
+            return "harness: direct stream call differs from the reference"
+        return None if remote == direct else "remote text stream with a custom error type differs from the direct call"
+    if op == 35:
+        import re
+        remote, direct = impl
+        if case[1] == 0:
+            how, s = case[2], bytes(case[3])
+            if how == 0:
+                t = s.decode()
+                ok = re.fullmatch(r"[+-]?[0-9]+", t) is not None and -2 ** 63 <= int(t) < 2 ** 63
+                if ok and direct != [0, u64(int(t) % 2 ** 64)]:
+                    return "harness: direct call differs from the reference body"
+                if not ok and not (direct[0] == 1 and direct[1][0] == 4):
+                    return "harness: `?` on a parse error did not become a ServerError"
+            elif how == 1:
+                if direct != [1, [4, list(b"boom: " + s)]]:
+                    return "harness: ServerFnError::new did not build a ServerError of the message"
+            elif direct != [0, u64(len(s))]:
+                return "harness: direct call differs from the reference body"
+        else:
+            how, n = case[2], case[3]
+            want = [1, [0, list(str(n).encode())]] if how in (0, 1) else [0, u64(n)]
+            if direct != want:
+                return "harness: direct call differs from the reference body"
+        return None if remote == direct else "remote call result differs from the direct call (error built by `?` / constructors)"
+    return None
+
+
+def _valid_eplan(p):
+    return (isinstance(p, list) and len(p) == 6 and p[0] in range(5) and _valid_u64(p[1]) and _is_text(p[2])
+            and isinstance(p[3], int) and 0 <= p[3] < 2 ** 32 and _is_bytes(p[4]) and p[5] in range(1, 11))
+
+
+def _valid_std_err(cust, kind, payload):
+    if kind not in range(10):
+        return False
+    if kind == 0:
+        return payload == [] if cust == 0 else (_is_bytes(payload) and len(payload) == 1)
+    return _is_text(payload)
+
+
+def _valid_segs(ch, textual=False):
+    if not all(isinstance(sg, list) and len(sg) == 2 and isinstance(sg[0], int) and 0 <= sg[0] <= 200000 and _is_bytes(sg[1])
+               for sg in ch):
+        return False
+    b = chunk_bytes(ch)
+    return len(b) <= 300000 and (not textual or _is_text(list(b)))
+
+
+def _valid_shape(s):
+    if not (isinstance(s, list) and s and s[0] in range(4)):
+        return False
+    if s[0] == 0:
+        return len(s) == 1
+    if s[0] == 1:
+        return len(s) == 2 and _valid_u64(s[1])
+    if s[0] == 2:
+        return len(s) == 3 and s[1] in range(256) and _is_text(s[2])
+    return len(s) == 3 and _is_opt(s[1], lambda x: x in range(256)) and _is_bytes(s[2])
+
+
+def valid_audit(c):
+    op = c[0]
+    if op == 22:
+        if c[1] == 13:
+            return len(c) == 2
+        if len(c) != 7 or c[1] not in range(13) or not _valid_frame(c[6]):
+            return False
+        fn, items, sched, take, faults = c[1], c[2], c[3], c[4], c[5]
+        for it in items:
+            if fn == 0:
+                ok = (it[0] == 0 and len(it) == 2 and _is_text(it[1])) or (it[0] == 1 and len(it) == 3 and _valid_std_err(1, it[1], it[2]))
+            elif fn == 12:
+                ok = it[0] == 0 and len(it) == 3 and _is_text(it[1]) and it[2] in (0, 1)
+            elif fn == 11:
+                ok = (it[0] == 0 and len(it) == 2 and _valid_inner(it[1])) or (it[0] == 1 and len(it) == 2 and _valid_eplan(it[1]) and it[1][0] in (1, 2, 3, 4))
+            else:
+                ok = (it[0] == 0 and len(it) == 2 and _valid_inner(it[1])) or (it[0] == 1 and len(it) == 3 and _valid_std_err(0, it[1], it[2]))
+            if not ok:
+                return False
+        if not (sched and all(isinstance(x, int) and 0 <= x <= 4 for x in sched) and isinstance(take, int) and 0 <= take <= len(items)):
+            return False
+        seen = set()
+        for f in faults:
+            if not (len(f) == 3 and f[0] in (0, 1) and isinstance(f[1], int) and 0 <= f[1] <= len(items) and (f[0], f[1]) not in seen
+                    and len(f[2]) == 2 and f[2][0] in (0, 1) and _is_bytes(f[2][1])):
+                return False
+            seen.add((f[0], f[1]))
+        return True
+    if op == 23:
+        if len(c) != 5 or c[1] not in range(8):
+            return False
+        if c[1] < 2:
+            return _valid_std_err(c[1], c[2], c[3]) and c[4] in ((0, 1) if c[1] == 0 else (0,))
+        return _valid_eplan(c[2]) and c[2][0] in (1, 2, 3, 4) and c[3] == 0 and c[4] == 0
+    if op == 24:
+        return len(c) == 3 and c[1] in range(8) and _is_text(c[2])
+    if op == 25:
+        if len(c) != 4 or c[1] not in range(7) or c[2] not in (0, 1):
+            return False
+        return _is_text(c[3]) if (c[2] == 1 or c[1] < 3) else _is_bytes(c[3])
+    if op == 26:
+        if len(c) != 9 or c[1] not in range(8) or c[8] not in (0, 1):
+            return False
+        ety, a, b, path, pre, q, f, conv = c[1:]
+        if ety < 2:
+            if not _valid_std_err(ety, a, b):
+                return False
+        elif not (_valid_eplan(a) and a[0] in (1, 2, 3, 4) and b == 0):
+            return False
+        if conv == 1 and not (ety == 0 and a != 0):
+            return False
+        if not _is_text(path):
+            return False
+        if bytes(pre).decode() in REL_BASES:
+            return q == [] and f == []
+        return valid_case(dict(case=[6, pre, q, f]))
+    if op == 27:
+        if len(c) != 5 or c[1] not in range(len(ZOO_FNS)) or c[3] not in (0, 1) or not _valid_frame(c[4]):
+            return False
+        z = c[2]
+        if not (isinstance(z, list) and len(z) == 11 and _valid_shape(z[0]) and all(_valid_shape(x) for x in z[1])):
+            return False
+        keys = [bytes(kv[0]) for kv in z[3]]
+        f = z[7]
+        return (isinstance(z[2][0], int) and -2 ** 31 <= z[2][0] < 2 ** 31 and _is_text(z[2][1])
+                and all(_is_text(kv[0]) and 0 <= kv[1] < 2 ** 32 for kv in z[3]) and keys == sorted(set(keys))
+                and isinstance(z[4], int) and 0 <= z[4] <= 0x10FFFF and not 0xD800 <= z[4] <= 0xDFFF
+                and all(_valid_u64(h) for h in z[5] + z[6]) and len(z[5]) == 2 and len(z[6]) == 2
+                and isinstance(f, int) and 0 <= f < 2 ** 32 and (f >> 23) & 0xFF != 0xFF and _is_bytes(z[8])
+                and ((z[9][0] == 0 and z[9][1] in range(256)) or (z[9][0] == 1 and _is_text(z[9][1])))
+                and len(z[10]) == 3 and all(x in range(65536) for x in z[10]))
+    if op == 28:
+        if len(c) != 4 or c[1] not in range(len(BIG_FNS)) or not _valid_frame(c[3]):
+            return False
+        segs, nums, items, by, strs = c[2]
+        url = c[1] in BIG_URL
+        lo = 1 if url else 0
+        cap = 40 if c[1] in (7, 8) else 300 if url else 70000
+        if not _valid_segs(segs, True) or len(chunk_bytes(segs)) > (300 if c[1] in (7, 8) else 4097 if url else 70000):
+            return False
+        return (len(nums) == 3 and lo <= nums[0] <= cap and 0 <= nums[1] < 2 ** 32 and 0 <= nums[2] < 2 ** 32
+                and len(items) == 2 and lo <= items[0] <= min(cap, 4097) and 0 <= items[1] <= 256 and (not url or items[1] >= 1)
+                and len(by) == 2 and lo <= by[0] <= cap and by[1] in range(256)
+                and len(strs) == 2 and lo <= strs[0] <= min(cap, 4097) and 0 <= strs[1] <= 256 and (not url or strs[1] >= 1))
+    if op == 29:
+        return len(c) == 5 and c[1] in (0, 1) and _is_text(c[2]) and isinstance(c[3], int) and 0 <= c[3] < 2 ** 32 and _valid_frame(c[4])
+    if op == 30:
+        return (len(c) == 5 and c[1] in range(len(OPT_NAMES)) and _is_text(c[2]) and isinstance(c[3], int) and 0 <= c[3] < 2 ** 32
+                and _valid_frame(c[4]))
+    if op == 31:
+        w = c[1]
+        rc_ok = lambda rc: isinstance(rc, list) and len(rc) == 2 and all(x in RECHUNK_SIZES for x in rc)
+        if w in (0, 1, 2):
+            if not (len(c) == 6 and _valid_val(c[2]) and c[3][0] in range(11) and _is_text(c[3][1]) and _valid_frame(c[4]) and rc_ok(c[5])):
+                return False
+            if w == 2:
+                v = c[2]
+                return bool(v[7]) and bool(v[8]) and all(i[2] != [[]] for i in [v[6]] + v[7] + v[9])
+            return True
+        if w == 3:
+            return len(c) == 4 and _is_text(c[2]) and isinstance(c[3], int) and 0 <= c[3] < 2 ** 32
+        if w in (4, 5):
+            return len(c) == 4 and rc_ok(c[3]) and all(_valid_segs(ch, w == 4) for ch in c[2])
+        if w == 6:
+            return len(c) == 5 and _is_opt(c[2], _is_header) and _is_bytes(c[3]) and rc_ok(c[4])
+        return w == 7 and len(c) == 3 and _is_text(c[2]) and all(chr(x).isalnum() or x == 95 for x in c[2])
+    if op == 32:
+        if not (len(c) == 5 and isinstance(c[4], list) and len(c[4]) == 2 and all(x in RECHUNK_SIZES for x in c[4])):
+            return False
+        return valid_case(dict(case=[8, c[1], c[2], c[3]]))
+    if op == 33:
+        return (len(c) == 3 and len(c[2]) == 2 and all(x in RECHUNK_SIZES for x in c[2])
+                and all(len(i) == 2 and i[0] in range(10) and _valid_segs(i[1], i[0] != 0) for i in c[1]))
+    if op == 34:
+        return len(c) == 3 and len(c[2]) == 2 and all(x in RECHUNK_SIZES for x in c[2]) and all(_valid_segs(ch, True) for ch in c[1])
+    if op == 35:
+        if len(c) != 4 or c[1] not in (0, 1) or c[2] not in (0, 1, 2):
+            return False
+        return _is_text(c[3]) if c[1] == 0 else c[3] in range(256)
+    return False
+
+
+def describe_audit(case):
+    op = case[0]
+    if op == 22:
+        if case[1] == 13:
+            return "plain GET (no upgrade) to the websocket function ws_json on the generic platform"
+        return "websocket fn ws_%s: input items %r, schedule %r, take %r, frames replaced in flight (direction index frame) %r, frame offsets %r: remote stream vs direct" % (
+            WS_FNS[case[1]], case[2], case[3], case[4], case[5], case[6])
+    if op == 23:
+        return "ServerFnErrorWrapper(%s from %r %r).to_string() then from_str()%s" % (
+            ERR_TYPES[case[1]], case[2], case[3], " via throw_error::Error::from" if case[4] else "")
+    if op == 24:
+        return "ServerFnErrorWrapper::<%s>::from_str(%r)" % (ERR_TYPES[case[1]], C.show_bytes(case[2]))
+    if op == 25:
+        return "%s::%s(%r)" % (FMT_ENCS[case[1]], ["into_encoded_string then from_encoded_string", "from_encoded_string"][case[2]], C.bs(case[3]))
+    if op == 26:
+        base = C.show_bytes(case[5]) + ("?" + C.show_bytes(case[6][0]) if case[6] else "") + ("#" + C.show_bytes(case[7][0]) if case[7] else "")
+        return "ServerFnUrlError::new(%r, %s from %r %r)%s.to_url(%r), then read __path/__err back" % (
+            C.show_bytes(case[4]), ERR_TYPES[case[1]], case[2], case[3], " -> ServerFnError::from" if case[8] else "", base)
+    if op == 27:
+        return "z_%s(zoo=%r, fail=%r) frames=%r: remote vs direct" % (ZOO_FNS[case[1]], case[2], case[3], case[4])
+    if op == 28:
+        return "b_%s(Big described by run lengths: string segments %r, nums (n first step) %r, items (n label-length) %r, bytes (n first) %r, strs (n each-length) %r) frames=%r: remote vs direct" % (
+            BIG_FNS[case[1]], [(n, C.bs(u)) for (n, u) in case[2][0]], case[2][1], case[2][2], case[2][3], case[2][4], case[3])
+    if op == 29:
+        return "%s(%r, %d) behind its middleware layers, frames=%r: remote vs direct" % (["mw_json", "mw_geturl"][case[1]], C.show_bytes(case[2]), case[3], case[4])
+    if op == 30:
+        return "%s(%r, %d) frames=%r: remote vs direct, PATH" % (OPT_NAMES[case[1]], C.show_bytes(case[2]), case[3], case[4])
+    if op == 31:
+        w = case[1]
+        if w <= 2:
+            return "%s(v=%r, plan=%r) frames=%r request/response cut at %r, on the axum backend: remote vs direct" % (
+                ["ax_json", "ax_rkyv", "ax_geturl"][w], case[2], (case[3][0], C.show_bytes(case[3][1])), case[4], case[5])
+        if w == 3:
+            return "ax_mw(%r, %d) behind a tower layer: remote vs direct" % (C.show_bytes(case[2]), case[3])
+        if w in (4, 5):
+            return "%s(chunks %r) cut at %r on the axum backend: remote vs direct" % (
+                ["ax_echo_text", "ax_emit_bytes"][w - 4], [[(n, C.bs(u)) for (n, u) in ch] for ch in case[2]], case[3])
+        if w == 6:
+            return "POST ax_upload Content-Type=%r body=%r cut at %r" % ([C.bs(x) for x in case[2]], C.bs(case[3]), case[4])
+        return "server_fn::axum::server_fn_paths() and handle_server_fn on the unknown route /api/%s" % C.show_bytes(case[2])
+    if op == 32:
+        return "axum backend: " + str(describe(dict(case=[8, case[1], case[2], case[3]]))) + " (POST /api/ax_glue, body cut at %r), and the whole loop" % (case[4],)
+    if op == 33:
+        return "emit_items(%r) re-chunk %r: byte stream with error items, remote vs direct" % (
+            [(k, [(n, C.bs(u)) for (n, u) in ch]) for (k, ch) in case[1]], case[2])
+    if op == 34:
+        return "text_out_app(chunks %r) re-chunk %r: TextStream<AppErrJson>, remote vs direct" % (
+            [[(n, C.bs(u)) for (n, u) in ch] for ch in case[1]], case[2])
+    if op == 35:
+        return ("q_std(how=%d, %r)" % (case[2], C.show_bytes(case[3])) if case[1] == 0 else "q_code(how=%d, %d)" % (case[2], case[3])) + \
+            ": body failing through `?` / constructors, remote vs direct"
+    return None
 
 
 def generate(rng, tier):
     n = 6000 if tier == "quick" else 100000
     for _ in range(n):
         r0 = rng.random()
-        if r0 < 0.25:
+        if r0 < 0.20:
             yield gen_glue(rng)
             continue
-        if r0 < 0.55:
+        if r0 < 0.45:
             yield gen_typed(rng)
+            continue
+        if r0 < 0.70:
+            yield gen_audit(rng)
             continue
         r = rng.random()
         if r < 0.22:
@@ -678,7 +1538,7 @@ def ref_err_wire(err):
     return TAGS[err[0]].encode() + b"|" + bytes(err[1])
 
 
-GLUE_PATHS = ["/api/glue", "/api/glue_patch", "/api/glue_put"]
+GLUE_PATHS = ["/api/glue", "/api/glue_patch", "/api/glue_put", "/api/ax_glue"]
 
 
 def oracle_glue(case, impl):
@@ -811,6 +1671,11 @@ def oracle_typed(case, impl):
         return None if remote == direct else "remote call result differs from the direct call (%s)" % PAIRS[case[1] % len(PAIRS)]
     if op == 11:
         # any byte-level fault must surface as a value (Ok if the bytes still decode, else Err): never a panic
+        if case[4] == 3:
+            return None if impl == [1, [2, list(b"connection refused")]] else "a failed send did not surface as the transport's Request error"
+        if case[4] == 4:
+            return None if impl == [1, [3, list(b"connection reset while reading the body")]] else \
+                "an unreadable response body did not surface as the transport's Response error"
         return None if impl and impl[0] in (0, 1) else "unexpected observation for a corrupted call"
     if op == 12:
         status, body = impl
@@ -970,6 +1835,8 @@ def oracle(item, impl):
         if impl[1] != m:
             return "from_server_fn_error changed the message"
         return None if (k == 10 or impl[0] == k) else "from_server_fn_error changed the kind of the error"
+    if op >= 22:
+        return oracle_audit(case, impl)
     if op >= 10:
         return oracle_typed(case, impl)
     if op == 6:
@@ -1107,6 +1974,8 @@ def valid_case(item):
             where, arg = c[4], c[5]
             if where == 2:
                 return isinstance(arg, int) and 100 <= arg <= 999
+            if where in (3, 4):
+                return arg == 0
             if where not in (0, 1):
                 return False
             k = arg[0]
@@ -1138,10 +2007,12 @@ def valid_case(item):
                     return False
             return True
         if op == 19:
-            return len(c) >= 2 and all(isinstance(sub, list) and sub and sub[0] in (9, 10, 18, 20, 21)
+            return len(c) >= 2 and all(isinstance(sub, list) and sub and sub[0] in (9, 10, 18, 20, 21, 23, 27, 30, 35)
                                        and valid_case(dict(case=sub)) for sub in c[1:])
         if op == 20:
-            return len(c) == 3 and c[1] in range(4) and isinstance(c[2], int) and 0 <= c[2] <= 5000
+            return len(c) == 3 and c[1] in range(5) and isinstance(c[2], int) and 0 <= c[2] <= 5000
+        if op >= 22:
+            return valid_audit(c)
         if op == 21:
             if len(c) not in (3, 4) or (len(c) == 4 and not _valid_frame(c[3])):
                 return False
@@ -1166,6 +2037,8 @@ def nontrivial(item, model):
 
 def describe(it):
     case = it["case"]
+    if case[0] >= 22:
+        return describe_audit(case)
     if case[0] == 0:
         _, cust, kind, payload = case
         return "ServerFnError<%s>::%s(%r).ser() then de()" % (
@@ -1202,7 +2075,7 @@ def describe(it):
         d = "%s(v=%r, plan=%r)" % ("f_" + PAIRS[case[1] % len(PAIRS)], case[2], (case[3][0], C.show_bytes(case[3][1])))
         if case[0] == 10:
             return d + " frames=%r: run_on_client() through the loopback vs the function called directly" % (case[4:5],)
-        return d + " frames=%r with transport fault where=%r %r" % (case[6:7], ["request", "response", "status"][case[4]], case[5])
+        return d + " frames=%r with transport fault where=%r %r" % (case[6:7], ["request", "response", "status", "send fails", "body read fails"][case[4]], case[5])
     if case[0] == 18:
         return "o_%s(first=%r, a=%r, mid=%r, list=%r, n=%r, last=%r) frames=%r: run_on_client() vs direct" % (
             OPT_FNS[case[1] % len(OPT_FNS)], case[2], C.show_bytes(case[3]), [C.show_bytes(x) for x in case[4]], case[5], case[6],
@@ -1217,7 +2090,7 @@ def describe(it):
         return "history on one thread: " + " ; THEN ".join(str(describe(dict(case=sub))) for sub in case[1:])
     if case[0] == 20:
         return ["poison_arg (JSON map with struct keys as argument)", "poison_result (same as result)", "nan_arg(NaN) over Json",
-                "deep (6 levels) over GetUrl"][case[1]] + " pad=%d: remote call must yield a value" % case[2]
+                "deep (6 levels) over GetUrl", "e_badkeys (an error its own JSON encoder cannot encode; pad mod 256 map entries)"][case[1]] + " pad=%d: remote call must yield a value" % case[2]
     if case[0] == 21:
         return "e_%s(plan=%r) frames=%r: custom error type, remote vs direct" % (APP_FNS[case[1] % len(APP_FNS)], case[2], case[3:4])
     if case[0] == 9:
